@@ -402,8 +402,10 @@ class Check:
             r = M.meson(['setup', '--backend=none', bd, sd], capture=os.path.join(root, 'setup.log'), timeout=120)
         if not r['ok'] or r['value'] != 0:
             return R.harness_error('setup of generated project failed: ' + (r.get('exc') or r['out'])[-2500:])
+        self.ctarget_paths: T.List[str] = []
         for r_ in ctargets:
             pth = os.path.join(bd, 'subprojects', IR.SUB, r_['name']) if r_.get('sub') else os.path.join(bd, r_['name'])
+            self.ctarget_paths.append(pth)
             os.makedirs(os.path.dirname(pth), exist_ok=True)
             with open(pth, 'wb') as f:
                 f.write(IR.content_of('ctarget:' + r_['name']))
@@ -466,14 +468,20 @@ class Check:
             if st['op'] == 'skew':
                 # clock jump: move the mtimes of (some) sources relative to now
                 srcs = sorted(p for p, it in IR.snapshot(sd).items() if it[0] == 'file' and not p.endswith('meson.build'))
-                srcs += sorted(tf[0] for tf in self.target_files.values())      # built targets are sources of the install too
+                srcs += sorted(tf[0] for tf in self.target_files.values()) + sorted(self.ctarget_paths)   # build outputs are sources of the install too
+                rest: T.List[str] = []
                 if st['which'] == 'half':
+                    rest = srcs[1::2]
                     srcs = srcs[::2]
                 import time as _t
                 now_ns = int(_t.time()) * 10 ** 9 + 500_000_000          # mid-second: sub-second deltas stay within the second
                 d_ns = int(round(st['delta'] * 10 ** 9))
                 for p in srcs:
                     os.utime(p, ns=(now_ns + d_ns, now_ns + d_ns))
+                for p in rest:
+                    # the sources that are not skewed are plainly old (their real creation time would relate to the
+                    # anchor by whatever the wall clock happened to be)
+                    os.utime(p, ns=(now_ns - 10 * 10 ** 9, now_ns - 10 * 10 ** 9))
                 for p, it in self.snap(destdir).items():
                     if it[0] == 'file':
                         os.utime(p, ns=(now_ns, now_ns))
